@@ -230,9 +230,28 @@ static void run_unusual() {
         auto r = p.context_parse(cv, string_buffer("a")); chk("const volatile context", r && *r == 5, "wrong value"); }
 }
 
+// ---------------------------------------------------------------- fifth part: rules attached with '>>=' under plain parse(): the functor still receives a first argument (the library's
+// own "no context" object) in front of the right-side values - positions do not shift, variadic functors see arity + 1 arguments
+constexpr nterm<int> np_root("root"); constexpr nterm<int> np_d("d");
+static void run_no_context() {
+    using namespace ctpg::ftors;
+    static const parser p(np_root, terms('1', '2', '+', '#'), nterms(np_root, np_d), rules(
+        np_d('1') >= val(1), np_d('2') >= val(2),
+        np_root(np_d, np_d) >>= _e2,                                                        // first right-side value
+        np_root(np_d, '+', np_d) >>= [](auto&&... all) { return int(sizeof...(all)) * 10; },  // context + 3 values
+        np_root('#', np_d, np_d) >>= _e3));                                                   // second right-side value (np_d), not the third
+    struct Case { const char* in; int want; };
+    for (Case c : {Case{"12", 1}, Case{"21", 2}, Case{"1+2", 40}, Case{"#12", 1}, Case{"#21", 2}}) {
+        ++g_cases; ++g_checks;
+        std::ostringstream es; auto r = p.parse(string_buffer(c.in), es); int ctx = 77; auto r2 = p.context_parse(ctx, string_buffer(c.in));
+        if (!r || *r != c.want) fail(0, "parse() on rules attached with >>=", c.in, "parse() gives " + (r ? std::to_string(*r) : std::string("empty")) + ", expected " + std::to_string(c.want) + " (the functor is called with a first argument in front of the right-side values)");
+        ++g_checks; if (!r2 || *r2 != c.want) fail(0, "context_parse on the same grammar", c.in, "context_parse gives " + (r2 ? std::to_string(*r2) : std::string("empty")) + ", expected " + std::to_string(c.want));
+    }
+}
+
 int main(int argc, char** argv) {
     int n = argc > 1 ? std::atoi(argv[1]) : 4;
-    run_helpers(); run_unusual();
+    run_helpers(); run_unusual(); run_no_context();
     {
         std::vector<std::string> in2{""}; int n2 = n > 6 ? 7 : n + 2;
         for (size_t lo = 0, l = 0; l < (size_t)n2; ++l) { size_t hi = in2.size(); for (size_t i = lo; i < hi; ++i) for (char c : {'a', 'b', ';', 'n'}) in2.push_back(in2[i] + c); lo = hi; }
